@@ -319,16 +319,30 @@ func c09Run(c c09Case) (sig string, err error) {
 	return sig, err
 }
 
+// c09ROM: images of 256 KiB and more are built once per (type, sizes) - the controllers only read them.
+var c09ROMs = map[[3]uint8][]byte{}
+
+func c09ROM(cart, romSize, ramSize uint8) []byte {
+	if romSize < 4 {
+		return machine.MakeROM(cart, romSize, ramSize)
+	}
+	k := [3]uint8{cart, romSize, ramSize}
+	if c09ROMs[k] == nil {
+		c09ROMs[k] = machine.MakeROM(cart, romSize, ramSize)
+	}
+	return c09ROMs[k]
+}
+
 func c09RunInner(c c09Case, ctx *c09Ctx) (sig string, err error) {
 	defer vf.Recover(&sig, &err)
 	kind := c09KindOf(c.Cart)
-	if kind < 0 || c.RamSize > 5 || c.RomSize > 3 {
+	if kind < 0 || c.RamSize > 5 || c.RomSize > 6 {
 		return "bad-case", fmt.Errorf("case outside the domain: cart %02x ram size %d rom size %d", c.Cart, c.RamSize, c.RomSize)
 	}
 	m := c09NewModel(kind, c.RamSize)
 	name := c09KindNames[kind]
 	ctx.m, ctx.phase = m, "construct"
-	mp := c09Mapper(machine.MakeROM(c.Cart, c.RomSize, c.RamSize))
+	mp := c09Mapper(c09ROM(c.Cart, c.RomSize, c.RamSize))
 	for i, op := range c.Ops {
 		ctx.step = i
 		switch {
@@ -510,7 +524,7 @@ func c09AllCarts(kinds ...int) []uint8 {
 }
 
 func TestC09(t *testing.T) {
-	c := vf.New(t, "C09", "exhaustive: every MBC cartridge type x enable-register address variant x all 256 enable bytes around a written cell; every banked type x RAM size code 0-5 x all 256 bank-select bytes after tagging every bank; "+
+	c := vf.New(t, "C09", "exhaustive: every MBC cartridge type x enable-register address variant x all 256 enable bytes around a written cell; every banked type x RAM size code 0-5 x all 256 bank-select bytes after tagging every bank (ROM images of 64 KiB, 128 KiB, 1 MiB and 2 MiB alternating); "+
 		"every A000-BFFF address of a ROM-only cartridge; plus rapid bus-level histories per controller over {enable byte, bank select, MBC1 mode, RAM write, RAM read, dump, unrelated control writes} with offsets drawn from a small pool so that cells are re-read. "+
 		"Non-trivial: a read of a cell written earlier with at least one enable toggle or bank switch in between, or an access while disabled (ROM-only: any read). Distinct = hash of the case.")
 	defer c.Flush()
@@ -594,7 +608,8 @@ func TestC09(t *testing.T) {
 						// back to mode 0: bank 0 whatever BANK2 holds
 						ops = append(ops, c09Op{K: "w", A: 0x4000, V: uint8(v)}, c09Op{K: "w", A: 0x6000, V: 0x00}, c09Op{K: "r", A: 0xa7ff}, c09Op{K: "r", A: 0xa000})
 					}
-					cas := c09Case{Cart: cart, RomSize: 1, RamSize: ramSize, Ops: ops}
+					// the size of the ROM is none of the RAM's business: small, 1 MiB and 2 MiB images alternate
+					cas := c09Case{Cart: cart, RomSize: []uint8{1, 5, 6, 2}[(v+int(ramSize))%4], RamSize: ramSize, Ops: ops}
 					_, feats, nontriv := c09Analyse(cas)
 					n++
 					if nontriv {
@@ -707,9 +722,12 @@ func c09GenCase(rt *rapid.T, kind int) c09Case {
 			return c09Op{K: "r", A: 0xa000 + offGen.Draw(rt, "off")}
 		}
 	})
-	romSize := uint8(1)
+	romSize := rapid.SampledFrom([]uint8{1, 1, 0, 2, 3, 4, 5, 6}).Draw(rt, "romsize")
 	if kind == c09None {
 		romSize = 0 // a ROM-only cartridge is 32 KiB
+	}
+	if kind == c09MBC2 && romSize > 3 {
+		romSize = 3 // MBC2 addresses 16 pages at most
 	}
 	// a slice of short slices: rapid's slices average about six elements whatever the maximum, this
 	// gives histories of ~25 operations (at most 80) that still shrink to a single operation
